@@ -64,6 +64,11 @@ def optNamesToJson : Option Names → Json
   | none => .null
   | some ns => namesToJson ns
 
+def axisSpecOfJson : Json → Except String AxisSpec
+  | .null => .ok .bcast
+  | .str "carry" => .ok .carry
+  | j => do .ok (.ax (← asInt j))
+
 def meshOfJson : Json → Except String MeshVal
   | .null => .ok .none
   | .str s => .ok (.one s)
@@ -129,6 +134,17 @@ def handle : Handler := fun fn args =>
       liftE optNamesToJson (nnxMetaAddAxis (← asInt (← argAt args 0)) (← paramsOfJson (← argAt args 1)) (← optNamesOfJson (← argAt args 2)))
   | "nnxmeta_remove_axis" => do
       liftE optNamesToJson (nnxMetaRemoveAxis (← asInt (← argAt args 0)) (← paramsOfJson (← argAt args 1)) (← optNamesOfJson (← argAt args 2)))
+  | "sa_add" => do
+      -- [kind, axes, states, nm]: states are lists of sharding tuples (one per variable in the state)
+      let kind ← asStr (← argAt args 0)
+      let axes ← asList axisSpecOfJson (← argAt args 1)
+      let states ← asList (asList namesOfJson) (← argAt args 2)
+      let nm ← nameOfJson (← argAt args 3)
+      let f : Int → List Names → List Names := fun k st => st.map (addAxis k nm)
+      let out := if kind == "vmap" then updateStatesVmap f axes states
+        else if kind == "scan_orig" then updateStatesScanOrig f axes states
+        else updateStatesScan f axes states
+      .ok (.arr (out.map (fun st => Json.arr (st.map namesToJson).toArray)).toArray)
   | "stack_at" => do
       match stackAt (← asInt (← argAt args 0)) (← asNat (← argAt args 1)) (← asList asNat (← argAt args 2)) with
       | some ds => .ok (natsToJson ds)
